@@ -300,3 +300,36 @@ func Verif_C02_external_backend_stream() {
 	verifapi.Assert("first-datagram-intact", verifapi.SameBytes(got[0], a))
 	verifapi.Assert("second-datagram-intact", verifapi.SameBytes(got[1], b))
 }
+
+// Verif_C02_node_names_are_exact: node IDs are compared byte for byte everywhere; only the literal
+// alias "localhost" (any letter case) means "this node". A datagram sent from node "Edge1" to a node
+// whose ID differs from the sender's only in letter case ("edge1", "EDGE1") is for ANOTHER node: it is
+// never handed to a listener of the sending node, it leaves towards that node (or fails for want of a
+// route).
+func Verif_C02_node_names_are_exact() {
+	n := verifNetceptor("Edge1")
+	s := n.s
+	cb := n.verifConn("edge1", 1)
+	routed := verifapi.Bool()
+	if routed {
+		s.routingTable["edge1"] = "edge1"
+		s.routingTable["EDGE1"] = "edge1"
+	}
+	sk := n.verifListener("svc")
+	to := []string{"edge1", "EDGE1", "Edge1", "localhost", "LOCALHOST"}[verifapi.Choose(5)]
+	err := s.SendMessageWithHopsToLive("src", to, "svc", []byte{7}, 5)
+	verifapi.Quiesce()
+	out := verifTake(cb)
+	verifapi.Cover("sent")
+	local := to == "Edge1" || to == "localhost" || to == "LOCALHOST"
+	if local {
+		verifapi.Assert("own-id-and-localhost-delivered-locally", verifapi.All(err == nil, len(*sk.got) == 1, len(out) == 0))
+	} else {
+		verifapi.Assert("another-node-s-datagram-never-handed-to-a-local-listener", len(*sk.got) == 0)
+		if routed {
+			verifapi.Assert("it-leaves-towards-that-node", verifapi.All(err == nil, len(out) == 1))
+		} else {
+			verifapi.Assert("without-a-route-the-sender-is-told", err != nil)
+		}
+	}
+}
